@@ -231,6 +231,22 @@ pub fn run(tier: Tier) -> Report {
             }
         }
     }
+    // dark colours (the L ~ 0 and chroma ~ 0 special cases): full product of {0, 2^-k, k = 7..24}
+    {
+        let mut dk = vec![0.0f32];
+        for k in 7..=24 {
+            dk.push(2f32.powi(-k));
+        }
+        for &r in &dk {
+            for &g in &dk {
+                for &b in &dk {
+                    shell.push([r, g, b]);
+                    // and the mirrored near-white colours
+                    shell.push([1.0 - r, 1.0 - g, 1.0 - b]);
+                }
+            }
+        }
+    }
     // low chroma with a near-tie of the two largest channels (the sextant decision is most
     // sensitive there: a hue error of 60*d/c degrees if the wrong channel is taken as the maximum)
     for lo in [0.0f32, 0.25, 0.5, 0.9] {
@@ -271,7 +287,7 @@ pub fn run(tier: Tier) -> Report {
     });
     rep.acc.merge(acc);
     rep.bound = format!(
-        "RGB: full product {{i/{}}}^3 = {total} pixels (contains all sextant boundaries, greys, black, white) + {} near-grey / near-boundary pixels (max-min in {{1e-7,1e-6,1e-4,1e-2,0.1}} at 65 base levels; large chroma with two channels 1 ulp .. 1e-5 apart, i.e. hues next to every sextant boundary incl. the 0/360 wrap; all 6 channel orders); HSL: {nh} hues (0.25 degree steps, +-1 ulp around every multiple of 60, largest f32 below 360) x {ns}^2 (S,L) values",
+        "RGB: full product {{i/{}}}^3 = {total} pixels (contains all sextant boundaries, greys, black, white) + {} near-grey / near-boundary pixels (max-min in {{1e-7,1e-6,1e-4,1e-2,0.1}} at 65 base levels; dark / near-white product {{0, 2^-k}}^3; low chroma with a near-tie of the two largest channels; large chroma with two channels 1 ulp .. 1e-5 apart, i.e. hues next to every sextant boundary incl. the 0/360 wrap; all 6 channel orders); HSL: {nh} hues (0.25 degree steps, +-1 ulp around every multiple of 60, largest f32 below 360) x {ns}^2 (S,L) values",
         n - 1, shell.len()
     );
     rep.rule = "Hsl::from(LinearRgb) on every pixel: H in [0,360), S,L in [0,1]; L within 1e-6, S within 1e-4 (0.01<=L<=0.99), H within 0.01 degrees mod 360 (max-min>=0.01) of the f64 hexcone; LinearRgb::from(Hsl::from(p)) within 1e-5 of p; L=0 -> black, L=1 -> white for every H,S".into();
